@@ -19,17 +19,25 @@ import Mathlib.Tactic.SplitIfs
 
   * `c28_spec_holds` — the executable reference semantics of the property
     (`Health.judge28`, the same function the check runs on the implementation's
-    output) accepts the model on every history, except for two classes that
-    only arise in a replica round during which the master is down; they are
-    exhibited by the `_witness` theorems and listed in known/C28.json.
-  * `c28_spec_holds_master_up_partial` — no violation at all on histories whose
-    replica rounds all see the master up.  (The full statement, without that
-    hypothesis, is false of the pinned code: see the witnesses.)
+    output) accepts the model on every history, except for one class that only
+    arises in a replica round during which the master is down, the replica's own
+    probe passed and `show slave status` reports lag or a stopped thread
+    (`replica-sync-ignored-master-down`: the maintainers skip the replication
+    check during a master outage on purpose — a dead master stops every
+    replica's IO thread — and their tests pin it; `_witness`, known/C28.json).
+    The second class of the pinned code, `replica-up-without-probe-master-down`,
+    was repaired (fix 4cba6eb).
+  * `c28_spec_holds_no_bad_sync_in_outage_partial` — no violation at all on
+    histories in which no replica round that runs during a master outage reads
+    lag or a stopped thread.  (The full statement, without that hypothesis, is
+    false of the code: see the witness.)
   * readable consequences, each for all states / all histories:
     `down_after_replica`, `down_after_master`, `lag_marks_down_partial`,
-    `up_only_after_successful_probe_partial`, `gradual_up_only_after_successful_probe`,
-    `restored_after_successful_probe`, `master_restored_after_successful_probe`,
-    `stays_up_without_cause`, `other_events_change_nothing`.
+    `up_only_after_successful_probe`, `restored_after_successful_probe`,
+    `served_during_master_outage`,
+    `master_restored_after_successful_probe`, `stays_up_without_cause`,
+    `other_events_change_nothing`; `replica_up_without_probe_master_down_repaired`
+    replays the old failing input.
 -/
 namespace GaeaVerif.C28
 open GaeaVerif GaeaVerif.Health
@@ -45,9 +53,8 @@ theorem checkRepeat_tie : Gen.healthCheckRepeat = (checkRepeat : Int) := by deci
 def Rel28 (s : St) (g : G28) : Prop :=
   g.rep = s.rep.up ∧ g.master = s.master.up ∧ g.lastOkR = s.rep.lastChecked ∧ g.lastOkM = s.master.lastChecked
 
-/-- The two listed classes. -/
-def Known28 (v : Viol28) : Prop :=
-  v = .replicaSyncIgnoredMasterDown ∨ v = .replicaUpWithoutProbeMasterDown
+/-- The listed class. -/
+def Known28 (v : Viol28) : Prop := v = .replicaSyncIgnoredMasterDown
 
 theorem rel28_init (t0 : Int) : Rel28 (St.init t0) (G28.init t0) := by
   simp [Rel28, St.init, G28.init]
@@ -65,9 +72,15 @@ theorem step28_master (c : Cfg) (s : St) (g : G28) (now : Int) (p : Probe) (h : 
     simp [judgeMaster28, St.obs, lastOkAfter, hok, hm, Rel28] <;>
     (try split_ifs) <;> (try simp_all) <;> (try omega)
 
+/-- The replication answer a replica round reads while the master is down, its
+    own probe having passed, is bad: the only situation in which the model does
+    not follow the property text. -/
+def badSyncInOutage (c : Cfg) (s : St) (p : Probe) (q : SlaveQ) : Bool :=
+  masterDown c s && probeOk c p && (syncSpec c.sbm q == .bad)
+
 theorem step28_replica (c : Cfg) (hs : c.sbm < 9223372036854775808) (s : St) (g : G28) (now : Int)
     (p : Probe) (q : SlaveQ) (h : Rel28 s g) :
-    (∀ v ∈ (judgeReplica28 c g now p q (tryRecover c s now p q).obs).1, Known28 v ∧ masterDown c s = true) ∧
+    (∀ v ∈ (judgeReplica28 c g now p q (tryRecover c s now p q).obs).1, Known28 v ∧ badSyncInOutage c s p q = true) ∧
     Rel28 (tryRecover c s now p q) (judgeReplica28 c g now p q (tryRecover c s now p q).obs).2 := by
   obtain ⟨r1, r2, r3, r4⟩ := h
   have hgood := syncSpec_good_alive c.sbm q (probeOk c p) hs
@@ -83,7 +96,8 @@ theorem step28_replica (c : Cfg) (hs : c.sbm < 9223372036854775808) (s : St) (g 
     subst r1 r2 r3 r4
     cases hok : probeOk c p <;> cases hsy : syncSpec c.sbm q <;> cases hal : checkSlaveSyncStatus (probeOk c p) c.sbm q <;>
       cases hm : c.hasMaster <;> cases gm <;> cases gr <;>
-      simp [judgeReplica28, St.obs, lastOkAfter, hok, hm, Rel28, hsy, masterDown, obsMasterDown, hpol, Known28] <;>
+      simp [judgeReplica28, St.obs, lastOkAfter, hok, hm, Rel28, hsy, masterDown, obsMasterDown, hpol, Known28, syncAlive,
+        badSyncInOutage] <;>
       (try split_ifs) <;> (try simp_all) <;> (try omega)
   · simp only
     rw [hardRecovery_round]
@@ -93,7 +107,8 @@ theorem step28_replica (c : Cfg) (hs : c.sbm < 9223372036854775808) (s : St) (g 
     subst r1 r2 r3 r4
     cases hok : probeOk c p <;> cases hsy : syncSpec c.sbm q <;> cases hal : checkSlaveSyncStatus (probeOk c p) c.sbm q <;>
       cases hm : c.hasMaster <;> cases gm <;> cases gr <;>
-      simp [judgeReplica28, St.obs, lastOkAfter, hok, hm, Rel28, hsy, masterDown, obsMasterDown, hpol, Known28] <;>
+      simp [judgeReplica28, St.obs, lastOkAfter, hok, hm, Rel28, hsy, masterDown, obsMasterDown, hpol, Known28, syncAlive,
+        badSyncInOutage] <;>
       (try split_ifs) <;> (try simp_all) <;> (try omega)
   · simp only
     rw [gradualRecovery_round]
@@ -103,7 +118,8 @@ theorem step28_replica (c : Cfg) (hs : c.sbm < 9223372036854775808) (s : St) (g 
     subst r1 r2 r3 r4
     cases hok : probeOk c p <;> cases hsy : syncSpec c.sbm q <;> cases hal : checkSlaveSyncStatus (probeOk c p) c.sbm q <;>
       cases hm : c.hasMaster <;> cases gm <;> cases gr <;>
-      simp [judgeReplica28, St.obs, lastOkAfter, hok, hm, Rel28, hsy, masterDown, obsMasterDown, hpol, Known28] <;>
+      simp [judgeReplica28, St.obs, lastOkAfter, hok, hm, Rel28, hsy, masterDown, obsMasterDown, hpol, Known28, syncAlive,
+        badSyncInOutage] <;>
       (try split_ifs) <;> (try simp_all) <;> (try omega)
 
 theorem step28_fuse (c : Cfg) (s : St) (g : G28) (now : Int) (ce tr : Bool) (h : Rel28 s g) :
@@ -118,12 +134,13 @@ theorem step28_fuse (c : Cfg) (s : St) (g : G28) (now : Int) (ce tr : Bool) (h :
   cases hpol : c.policy <;> cases ce <;> cases tr <;> cases gr <;>
     simp [judgeFuse28, St.obs, Rel28, hpol, fuseFires]
 
-/-- One step: every violation the judge reports on the model's own step is a
-    listed class and arises in a replica round with the master down; the ghost
-    state keeps describing the model state. -/
+/-- One step: every violation the judge reports on the model's own step is the
+    listed class and arises in a replica round that runs while the master is
+    down, whose own probe passed and whose `show slave status` answer is bad;
+    the ghost state keeps describing the model state. -/
 theorem step28 (c : Cfg) (hs : c.sbm < 9223372036854775808) (s : St) (g : G28) (e : Ev) (h : Rel28 s g) :
     (∀ v ∈ (judgeStep28 c g e (step c s e).obs).1,
-        Known28 v ∧ ∃ now p q, e = .replica now p q ∧ masterDown c s = true) ∧
+        Known28 v ∧ ∃ now p q, e = .replica now p q ∧ badSyncInOutage c s p q = true) ∧
     Rel28 (step c s e) (judgeStep28 c g e (step c s e).obs).2 := by
   cases e with
   | master now p =>
@@ -163,8 +180,8 @@ theorem judge28_trace (c : Cfg) (hs : c.sbm < 9223372036854775808) :
 /-- **C28 on every history.**  For every configuration (with `secondsBehindMaster`
     a Go `int`), every start time and every history of master rounds, replica
     rounds, fuse calls and clock advances, the reference semantics of the
-    property accepts the statuses the model produces, except for the two
-    listed classes. -/
+    property accepts the statuses the model produces, except for the one
+    listed class (`replica-sync-ignored-master-down`). -/
 theorem c28_spec_holds (c : Cfg) (hs : c.sbm < 9223372036854775808) (t0 : Int) (evs : List Ev) :
     ∀ v ∈ judge28 c (G28.init t0) evs ((trace c (St.init t0) evs).map St.obs), Known28 v :=
   judge28_trace c hs evs _ _ (rel28_init t0)
@@ -194,16 +211,17 @@ example :
     judge28 c (G28.init 1000) evs [⟨false, true⟩, ⟨true, true⟩, ⟨true, true⟩, ⟨true, true⟩] = [.replicaUpWithoutProbe] ∧
     judge28 c (G28.init 1000) evs [⟨false, true⟩, ⟨false, true⟩, ⟨true, true⟩, ⟨false, true⟩] = [.replicaDownWithoutCause] := by decide
 
-/-- Every replica round of the history sees the master up. -/
-def masterUpAtReplicaRounds (c : Cfg) : St → List Ev → Bool
+/-- No replica round of the history that runs while the master is down (its own
+    probe having passed) reads lag over the limit or a stopped thread. -/
+def noBadSyncInOutage (c : Cfg) : St → List Ev → Bool
   | _, [] => true
   | s, e :: es =>
     (match e with
-     | .replica _ _ _ => !masterDown c s
-     | _ => true) && masterUpAtReplicaRounds c (step c s e) es
+     | .replica _ p q => !badSyncInOutage c s p q
+     | _ => true) && noBadSyncInOutage c (step c s e) es
 
-theorem judge28_trace_master_up (c : Cfg) (hs : c.sbm < 9223372036854775808) :
-    ∀ (evs : List Ev) (s : St) (g : G28), Rel28 s g → masterUpAtReplicaRounds c s evs = true →
+theorem judge28_trace_no_bad_sync (c : Cfg) (hs : c.sbm < 9223372036854775808) :
+    ∀ (evs : List Ev) (s : St) (g : G28), Rel28 s g → noBadSyncInOutage c s evs = true →
       judge28 c g evs ((trace c s evs).map St.obs) = [] := by
   intro evs
   induction evs with
@@ -217,25 +235,48 @@ theorem judge28_trace_master_up (c : Cfg) (hs : c.sbm < 9223372036854775808) :
       intro v hv
       obtain ⟨_, now, p, q, he, hd⟩ := hst.1 v hv
       subst he
-      simp [masterUpAtReplicaRounds, hd] at hm
-    have h2 : masterUpAtReplicaRounds c (step c s e) es = true := by
-      simp only [masterUpAtReplicaRounds, Bool.and_eq_true] at hm
+      simp [noBadSyncInOutage, hd] at hm
+    have h2 : noBadSyncInOutage c (step c s e) es = true := by
+      simp only [noBadSyncInOutage, Bool.and_eq_true] at hm
       exact hm.2
     rw [h1, ih _ _ hst.2 h2]
     rfl
 
-/-- **C28 while the master is up** (`_partial`: the hypothesis excludes the
-    replica rounds that run while the master is down; without it the statement
-    is false of the pinned code, see the `_witness` theorems).  On such
-    histories the reference semantics reports no violation at all. -/
-theorem c28_spec_holds_master_up_partial (c : Cfg) (hs : c.sbm < 9223372036854775808) (t0 : Int) (evs : List Ev)
-    (hm : masterUpAtReplicaRounds c (St.init t0) evs = true) :
-    judge28 c (G28.init t0) evs ((trace c (St.init t0) evs).map St.obs) = [] :=
-  judge28_trace_master_up c hs evs _ _ (rel28_init t0) hm
+/-- **C28 unless lag or a stopped thread is read during a master outage**
+    (`_partial`: the hypothesis excludes the replica rounds that run while the
+    master is down, pass their own probe and read a bad `show slave status`
+    answer; without it the statement is false of the code, see
+    `replica_sync_ignored_master_down_witness`).  On such histories — in
+    particular on every history whose replica rounds see the master up, and on
+    every history with `secondsBehindMaster = 0` — the reference semantics
+    reports no violation at all.
 
-example : masterUpAtReplicaRounds ⟨false, 0, 12, 5, true, true⟩ (St.init 1000)
-    [.master 1004 ⟨.conn, []⟩, .replica 1004 ⟨.err, []⟩ .empty, .replica 1012 ⟨.err, []⟩ .empty,
-     .replica 1016 ⟨.conn, [⟨.soft, true, true⟩]⟩ (.row (.u64 6) (.str "Yes") (.str "Yes"))] = true := by decide
+    Full statement (false): `∀ c t0 evs, judge28 c (G28.init t0) evs (…) = []`. -/
+theorem c28_spec_holds_no_bad_sync_in_outage_partial (c : Cfg) (hs : c.sbm < 9223372036854775808) (t0 : Int)
+    (evs : List Ev) (hm : noBadSyncInOutage c (St.init t0) evs = true) :
+    judge28 c (G28.init t0) evs ((trace c (St.init t0) evs).map St.obs) = [] :=
+  judge28_trace_no_bad_sync c hs evs _ _ (rel28_init t0) hm
+
+/-- master down at 1012; a replica round with a failed probe, one with a passed
+    probe and a good answer, and — the master back up at 1022 — one with lag -/
+example : noBadSyncInOutage ⟨false, 0, 12, 5, true, true⟩ (St.init 1000)
+    [.master 1012 ⟨.err, []⟩, .replica 1013 ⟨.err, []⟩ (.row (.u64 9) (.str "No") (.str "Yes")),
+     .replica 1016 ⟨.conn, [⟨.soft, true, true⟩]⟩ (.row (.u64 5) (.str "Yes") (.str "Yes")),
+     .master 1022 ⟨.conn, []⟩, .replica 1023 ⟨.conn, []⟩ (.row (.u64 6) (.str "Yes") (.str "Yes"))] = true := by decide
+
+/-- With the replication check switched off (`secondsBehindMaster = 0`) the
+    hypothesis holds for every history: C28 at full strength. -/
+theorem noBadSync_of_sbm_zero (c : Cfg) (h0 : c.sbm = 0) : ∀ (evs : List Ev) (s : St), noBadSyncInOutage c s evs = true := by
+  intro evs
+  induction evs with
+  | nil => intro s; rfl
+  | cons e es ih =>
+    intro s
+    cases e <;> simp [noBadSyncInOutage, badSyncInOutage, syncSpec, h0, ih]
+
+theorem c28_spec_holds_sync_check_off (c : Cfg) (h0 : c.sbm = 0) (t0 : Int) (evs : List Ev) :
+    judge28 c (G28.init t0) evs ((trace c (St.init t0) evs).map St.obs) = [] :=
+  c28_spec_holds_no_bad_sync_in_outage_partial c (by omega) t0 evs (noBadSync_of_sbm_zero c h0 evs _)
 
 /-! ### the same, in words: time of the last successful probe -/
 
@@ -340,62 +381,85 @@ example : lastOkRep ⟨false, 0, 12, 0, false, true⟩ 1000
     [.replica 1004 ⟨.conn, []⟩ .empty, .replica 1008 ⟨.err, []⟩ .empty, .replica 1016 ⟨.err, []⟩ .empty] = 1004 := by decide
 
 /-- **Lag or a stopped thread marks the replica down** (`_partial`: while the
-    master is up; false otherwise, see `replica_sync_ignored_master_down_witness`).
-    For every state: a round whose probe succeeds and whose `show slave status`
-    reports lag over the limit or a stopped thread leaves the replica down. -/
+    master is up; false otherwise, see `replica_sync_ignored_master_down_witness`
+    — the one open finding).  For every state: a round whose probe succeeds and
+    whose `show slave status` reports lag over the limit or a stopped thread
+    leaves the replica down.
+
+    Full statement (false): the same without `hmu`. -/
 theorem lag_marks_down_partial (c : Cfg) (hs : c.sbm < 9223372036854775808) (s : St) (now : Int) (p : Probe) (q : SlaveQ)
     (hok : probeOk c p = true) (hbad : syncSpec c.sbm q = .bad) (hmu : masterDown c s = false) :
     (tryRecover c s now p q).rep.up = false := by
   have hd := syncSpec_bad_dead c.sbm q hs hbad
   simp only [tryRecover]
   cases c.policy <;>
-    simp [noRecovery_round, hardRecovery_round, gradualRecovery_round, hok, hd, hmu]
+    simp [noRecovery_round, hardRecovery_round, gradualRecovery_round, hok, hd, hmu, syncAlive]
 
 example : syncSpec 5 (.row (.u64 6) (.str "Yes") (.str "Yes")) = .bad := by decide
 example : syncSpec 5 (.row (.u64 0) (.str "No") (.str "Yes")) = .bad := by decide
 
-/-- **A node comes up only after a successful probe** (`_partial`: while the
-    master is up, or under the gradual policy — see
-    `gradual_up_only_after_successful_probe`; false otherwise, see
-    `replica_up_without_probe_master_down_witness`).  For every state: if a round
-    turns a down replica up, its probe succeeded, less than `downAfter`
-    seconds have passed and the replication check did not fail. -/
-theorem up_only_after_successful_probe_partial (c : Cfg) (s : St) (now : Int) (p : Probe) (q : SlaveQ)
-    (hdown : s.rep.up = false) (hup : (tryRecover c s now p q).rep.up = true) (hmu : masterDown c s = false) :
-    probeOk c p = true ∧ 0 < c.downAfter ∧ checkSlaveSyncStatus true c.sbm q = true := by
+/-- **A node comes up only after a successful probe.**  For every state, every
+    policy and whatever the master's state: if a round turns a down replica up,
+    its own probe succeeded in that round, less than `downAfter` seconds have
+    passed and the replication check did not fail (or was skipped because the
+    master is down). -/
+theorem up_only_after_successful_probe (c : Cfg) (s : St) (now : Int) (p : Probe) (q : SlaveQ)
+    (hdown : s.rep.up = false) (hup : (tryRecover c s now p q).rep.up = true) :
+    probeOk c p = true ∧ 0 < c.downAfter ∧ (masterDown c s = true ∨ checkSlaveSyncStatus true c.sbm q = true) := by
   revert hup
   simp only [tryRecover]
-  cases hok : probeOk c p <;> cases c.policy <;>
-    simp [noRecovery_round, hardRecovery_round, gradualRecovery_round, hok, hmu, hdown, lastOkAfter] <;>
+  cases hok : probeOk c p <;> cases hmd : masterDown c s <;> cases c.policy <;>
+    simp [noRecovery_round, hardRecovery_round, gradualRecovery_round, hok, hmd, hdown, lastOkAfter, syncAlive] <;>
     intros <;> simp_all
 
-/-- Under the gradual policy the same holds whatever the master's state. -/
-theorem gradual_up_only_after_successful_probe (c : Cfg) (hp : c.policy = .gradual) (s : St) (now : Int)
-    (p : Probe) (q : SlaveQ)
-    (hdown : s.rep.up = false) (hup : (tryRecover c s now p q).rep.up = true) :
-    probeOk c p = true ∧ 0 < c.downAfter ∧ masterDown c s = false := by
-  revert hup
-  simp only [tryRecover, hp]
-  cases hok : probeOk c p <;> cases hmd : masterDown c s <;>
-    simp [gradualRecovery_round, hok, hmd, hdown, lastOkAfter] <;>
-    intros <;> simp_all
+example : ∃ (c : Cfg) (s : St) (p : Probe) (q : SlaveQ), s.rep.up = false ∧ masterDown c s = true ∧
+    (tryRecover c s 1013 p q).rep.up = true :=
+  ⟨⟨false, 0, 12, 5, false, true⟩, { St.init 1000 with rep := ⟨false, 1004⟩, master := ⟨false, 1000⟩ }, ⟨.conn, []⟩, .empty,
+   by decide, by decide, by decide⟩
 
 /-- **A down replica comes up after a successful probe** (no recovery policy;
-    fused replicas under a policy are C27): probe succeeded, the replication
-    check does not fail, `downAfter` is positive — the replica is up after the
-    round, whatever the master's state. -/
+    fused replicas under a policy are C27): probe succeeded, `downAfter` is
+    positive, the replication check does not fail or is skipped because the
+    master is down — the replica is up after the round. -/
 theorem restored_after_successful_probe (c : Cfg) (hp : c.policy = .none) (hs : c.sbm < 9223372036854775808)
     (s : St) (now : Int) (p : Probe) (q : SlaveQ)
-    (hok : probeOk c p = true) (hd : 0 < c.downAfter) (hgood : syncSpec c.sbm q = .good) :
+    (hok : probeOk c p = true) (hd : 0 < c.downAfter)
+    (hgood : masterDown c s = true ∨ syncSpec c.sbm q = .good) :
     (tryRecover c s now p q).rep.up = true := by
-  have ha := syncSpec_good_alive c.sbm q true hs hgood
+  have ha : syncAlive c s true q = true := by
+    rcases hgood with h | h
+    · simp [syncAlive, h]
+    · simp [syncAlive, syncSpec_good_alive c.sbm q true hs h]
   simp only [tryRecover, hp]
-  cases hmd : masterDown c s <;>
-    simp [noRecovery_round, hok, hmd, lastOkAfter, ha] <;> omega
+  simp [noRecovery_round, hok, lastOkAfter, ha]
+  omega
 
-example : ∃ c : Cfg, c.policy = .none ∧ c.sbm < 9223372036854775808 ∧ 0 < c.downAfter ∧
-    probeOk c ⟨.conn, []⟩ = true ∧ syncSpec c.sbm .empty = .good :=
-  ⟨⟨false, 0, 12, 5, false, true⟩, by decide, by decide, by decide, by decide, by decide⟩
+example : ∃ (c : Cfg) (s : St), c.policy = .none ∧ c.sbm < 9223372036854775808 ∧ 0 < c.downAfter ∧
+    probeOk c ⟨.conn, []⟩ = true ∧ (masterDown c s = true ∨ syncSpec c.sbm .empty = .good) :=
+  ⟨⟨false, 0, 12, 5, false, true⟩, St.init 1000, by decide, by decide, by decide, by decide, by decide⟩
+
+/-- **Reads keep being served during a master outage** (the maintainers' intent
+    behind the master-down branches, as repaired): while the master is down a
+    replica whose own probe passes in this round — whatever `show slave status`
+    says — is up after the round if it was up, and is restored if it was down
+    and its recovery policy allows it (none: at once; hard: cool-down over;
+    gradual: count used up). -/
+theorem served_during_master_outage (c : Cfg) (s : St) (now : Int) (p : Probe) (q : SlaveQ)
+    (hmd : masterDown c s = true) (hok : probeOk c p = true) (hd : 0 < c.downAfter)
+    (hallow : s.rep.up = true ∨ c.policy = .none ∨ (c.policy = .hard ∧ now ≥ s.lastFuse + c.cooling) ∨
+              (c.policy = .gradual ∧ s.cscc ≤ 0)) :
+    (tryRecover c s now p q).rep.up = true := by
+  have ha : ∀ b, syncAlive c s b q = true := fun b => by simp [syncAlive, hmd]
+  simp only [tryRecover]
+  cases hpol : c.policy <;> cases hu : s.rep.up <;>
+    simp [noRecovery_round, hardRecovery_round, gradualRecovery_round, hok, lastOkAfter, ha, hu] <;>
+    simp_all <;> omega
+
+example : ∃ (c : Cfg) (s : St), masterDown c s = true ∧ probeOk c ⟨.conn, []⟩ = true ∧ 0 < c.downAfter ∧
+    s.rep.up = false ∧ c.policy = .hard ∧ (1040 : Int) ≥ s.lastFuse + c.cooling :=
+  ⟨⟨true, 30, 12, 5, false, true⟩,
+   { St.init 1000 with rep := ⟨false, 1000⟩, master := ⟨false, 1000⟩, lastFuse := 1004 },
+   by decide, by decide, by decide, by decide, by decide, by decide⟩
 
 /-- **The master comes up after a successful probe and goes down only after
     `downAfter` seconds without one**: the master's status after its round is
@@ -415,7 +479,7 @@ theorem stays_up_without_cause (c : Cfg) (s : St) (now : Int) (p : Probe) (q : S
     (tryRecover c s now p q).rep.up = true := by
   simp only [tryRecover]
   cases c.policy <;>
-    simp [noRecovery_round, hardRecovery_round, gradualRecovery_round, hup, halive, lastOkAfter] <;> omega
+    simp [noRecovery_round, hardRecovery_round, gradualRecovery_round, hup, halive, lastOkAfter, syncAlive] <;> omega
 
 /-- **No other event changes a node's status**: a master round leaves the
     replica alone, a replica round leaves the master alone, a clock advance
@@ -465,28 +529,33 @@ theorem probe_fails_on_ping (c : Cfg) (a : Attempt) (as : List Attempt)
   simp only [probeOk, checkInstanceStatus, checkLoop, List.headD_cons, hh, hp]
   simp
 
-/-! ### witnesses: the two listed classes on the model of the pinned code -/
+/-! ### the repaired class on its old failing input, and the witness of the open one -/
 
-/-- The replica goes down for lag at 1004 (its probe succeeded); the master is
-    marked down at 1012; at 1013 the replica's probe fails — and the replica is
-    marked up (no-recovery policy; the hard policy behaves the same). -/
-theorem replica_up_without_probe_master_down_witness :
-    let c : Cfg := ⟨false, 0, 12, 5, false, true⟩
+/-- The history on which the pinned code violated the property (class
+    `replica-up-without-probe-master-down`, repaired by fix 4cba6eb): the replica
+    goes down for lag at 1004 (its probe succeeded); the master is marked down
+    at 1012; at 1013 the replica's probe fails — the replica now stays down
+    (no-recovery policy; the hard policy behaves the same), and the judge
+    rejects the old behaviour. -/
+theorem replica_up_without_probe_master_down_repaired :
+    ∀ c ∈ ([⟨false, 0, 12, 5, false, true⟩, ⟨true, 30, 12, 5, false, true⟩] : List Cfg),
     let evs : List Ev := [.replica 1004 ⟨.conn, []⟩ (.row (.u64 9) (.str "Yes") (.str "Yes")),
                           .master 1012 ⟨.err, []⟩, .replica 1013 ⟨.err, []⟩ .empty]
-    (trace c (St.init 1000) evs).map St.obs = [⟨false, true⟩, ⟨false, false⟩, ⟨true, false⟩] ∧
+    (trace c (St.init 1000) evs).map St.obs = [⟨false, true⟩, ⟨false, false⟩, ⟨false, false⟩] ∧
     probeOk c ⟨.err, []⟩ = false ∧
-    judge28 c (G28.init 1000) evs ((trace c (St.init 1000) evs).map St.obs) = [.replicaUpWithoutProbeMasterDown] := by
+    judge28 c (G28.init 1000) evs ((trace c (St.init 1000) evs).map St.obs) = [] ∧
+    judge28 c (G28.init 1000) evs [⟨false, true⟩, ⟨false, false⟩, ⟨true, false⟩] = [.replicaUpWithoutProbeMasterDown] := by
   decide
 
-/-- The master is marked down at 1012; at 1013 the replica's probe succeeds and
-    `show slave status` reports 9 s of lag (limit 5) and a stopped IO thread —
-    and the replica stays up, under every policy. -/
+/-- The open class.  The master is marked down at 1012; at 1013 the replica's
+    probe succeeds and `show slave status` reports 9 s of lag (limit 5) and a
+    stopped IO thread — and the replica stays up, under every policy. -/
 theorem replica_sync_ignored_master_down_witness :
     ∀ c ∈ ([⟨false, 0, 12, 5, false, true⟩, ⟨true, 30, 12, 5, false, true⟩, ⟨true, 0, 12, 5, false, true⟩] : List Cfg),
     let evs : List Ev := [.master 1012 ⟨.err, []⟩, .replica 1013 ⟨.conn, []⟩ (.row (.u64 9) (.str "No") (.str "Yes"))]
     (trace c (St.init 1000) evs).map St.obs = [⟨true, false⟩, ⟨true, false⟩] ∧
     syncSpec c.sbm (.row (.u64 9) (.str "No") (.str "Yes")) = .bad ∧
+    noBadSyncInOutage c (St.init 1000) evs = false ∧
     judge28 c (G28.init 1000) evs ((trace c (St.init 1000) evs).map St.obs) = [.replicaSyncIgnoredMasterDown] := by
   decide
 
